@@ -1,7 +1,8 @@
 (* C16 — non-vacuity: concrete inputs meeting the hypotheses of the property theorems, and
    instances of the oracle hypotheses. *)
 From GL Require Import Common.Bytes Text.Quote Text.StrLit Text.NumRead Text.NumText Text.Date
-  Text.NumFacts Text.NumLexFacts Text.NumTextFacts Text.DateFacts Text.RoundFacts Text.CalFacts.
+  Text.NumFacts Text.NumLexFacts Text.NumTextFacts Text.DateFacts Text.RoundFacts Text.CalFacts
+  Text.Reader Text.ReaderFacts.
 From Coq Require Import Lia ZifyBool.
 
 (* ---- %q ---- *)
@@ -124,6 +125,22 @@ Proof. exact (tostring_tonumber_lemma ex_rnd ex_fmt ex_rnd_int_exact ex_fmt_roun
 Example ex_round_dec : round_dec 1 (-1) = Fin 3602879701896397 (-55) /\ round_dec 9007199254740993 0 = Fin 1 53
   /\ round_dec 17976931348623159 292 = PInf /\ round_dec 5 (-324) = Fin 1 (-1074).
 Proof. repeat split; vm_compute; reflexivity. Qed.
+
+(* ---- the reader ---- *)
+(* `a CR LF b` delivered with the pair split between two fills, one byte at a time with empty
+   Reads, and at once: the same characters a LF b EOF *)
+Example ex_reader_split :
+  chars_rd 4 (mkRd [] [[97; 13]; [10; 98]]) = [97; 10; 98; -1]
+  /\ chars_rd 4 (mkRd [] [[97]; []; [13]; []; []; [10]; [98]]) = [97; 10; 98; -1]
+  /\ chars_rd 4 (mkRd [] [[97; 13; 10; 98]]) = [97; 10; 98; -1]
+  /\ chars 4 [97; 13; 10; 98] = [97; 10; 98; -1].
+Proof. repeat split; vm_compute; reflexivity. Qed.
+
+(* the theorem discriminates: a Newline that does not look for the partner when nothing is buffered
+   (not today's code) reads the split pair as two line ends *)
+Example ex_reader_shortcut_refuted : exists r,
+  next (flat r) <> (fst (next_rd_shortcut r), flat (snd (next_rd_shortcut r))).
+Proof. exists (mkRd [13] [[10; 98]]). vm_compute. discriminate. Qed.
 
 (* ---- dates ---- *)
 (* the calendar hypothesis of time_date_roundtrip is satisfiable (a one-field calendar) ... *)
